@@ -509,6 +509,8 @@ def run_check(prop, argv):
     pf = check_property_file(pid)
     hits = forbidden_scan()
     proof_ok = pf['ok'] and not hits
+    if hits:
+        pf['discharged'] = 0              # an escape hatch anywhere in the development voids every obligation
     chk = None
     if tier == 'thorough' and pf['ok'] and not replay:
         chk = coqchk_property(pid)
